@@ -42,11 +42,15 @@ func wrapType(r *hx.Rand, base string, allowList bool) TypeRef {
 			depth = 1
 		case 3:
 			depth = 2
+		case 4:
+			if r.Chance(1, 3) {
+				depth = 3 // with every level non-null this is the deepest type introspection.Query can describe
+			}
 		}
 	}
 	for i := 0; i < depth; i++ {
 		t = listOf(t)
-		if r.Chance(1, 3) {
+		if r.Chance(1, 3) || depth == 3 && r.Chance(2, 3) {
 			t = nonNull(t)
 		}
 	}
@@ -352,7 +356,7 @@ func (g *opGen) selSet(parent string, depth int, sc *scope) []Sel {
 			hasFrag = true
 		default: // named fragment: reuse a compatible one or define a new one
 			var name string
-			if g.r.Chance(1, 6) {
+			if g.r.Chance(1, 3) {
 				for _, f := range g.frags {
 					if contains(conds, f.Cond) && !used[goFieldName(f.Name)] && g.mergeFragment(sc, f, true) {
 						name = f.Name
